@@ -223,6 +223,7 @@ def run(ctx, chk, tier):
     # the replicates are metrics of bootstrap samples and of the per-group objects cut out of them: whatever is built with is_sorted=True is ascending
     from . import c01 as _c01s
     _c01s.construction_sites(ctx, chk)
+    c12.sampling_alignment(ctx, chk)     # every replicate is a GroupScores with the source's flags, names and (score, label) pairing
     # the intervals of the frame are utils.bootstrap_ci applied to the (N, G, T) replicate array: its formula and axis roles (C13) are part of
     # "computed for the same quantity, under the same labels"
     from . import c13
